@@ -251,6 +251,8 @@ SRC_MODULES = {
     "Anonymongo.Src.isInSearchStage_eq": "Helpers", "Anonymongo.Src.augmentOp_eq": "Helpers",
     "Anonymongo.Src.redactOperation_eq": "Dispatch", "Anonymongo.Src.redactOperation_seq": "Dispatch", "Anonymongo.Src.seqOp_map": "Dispatch",
     "Anonymongo.Src.seqVal_eq": "Dispatch", "Anonymongo.Src.redactNamespaceFields_eq": "Dispatch", "Anonymongo.Src.Gen_searchedFields": "Dispatch",
+    "Anonymongo.Src.redactCommand_eq": "Command", "Anonymongo.Src.redactNamespace_eq": "Command", "Anonymongo.Src.blkInner": "Command",
+    "Anonymongo.Src.blkLoop": "Command", "Anonymongo.Src.blkLoopG": "Command", "Anonymongo.Src.opsLoop": "Command",
     "Anonymongo.Src.HashName_eq": "Hash", "Anonymongo.Src.trimLeftCutset_dollar": "Hash",
     "Anonymongo.Src.redactQueryValues_eq": "Walk", "Anonymongo.Src.redactArrayValuesWithKey_eq": "Walk", "Anonymongo.Src.redactArrayValues_eq": "Walk",
     "Anonymongo.Src.redactQueryValues_eq_gen": "Walk", "Anonymongo.Src.QA_all": "Walk", "Anonymongo.Src.Q_step": "Walk", "Anonymongo.Src.A_step": "Walk",
@@ -262,16 +264,18 @@ _LEAF = ["Anonymongo.Src.redactScalarValue_eq", "Anonymongo.Src.redactScalarValu
 _PATH = ["Anonymongo.Src.getOp_eq", "Anonymongo.Src.traverseMapPath_eq", "Anonymongo.Src.traverseMapPath_step", "Anonymongo.Src.traverseFuel_enough",
          "Anonymongo.Src.withinSearchUserDocument_eq", "Anonymongo.Src.RemoveElementAfter_eq", "Anonymongo.Src.RemoveElementsBeforeIncluding_eq"]
 _HELP = ["Anonymongo.Src.isFieldNameValue_eq", "Anonymongo.Src.isRedactableFieldPatternInArray_eq", "Anonymongo.Src.isInSearchStage_eq", "Anonymongo.Src.augmentOp_eq"]
+_CMD = ["Anonymongo.Src.redactCommand_eq", "Anonymongo.Src.blkInner", "Anonymongo.Src.blkLoopG", "Anonymongo.Src.opsLoop"]
 _DISP = ["Anonymongo.Src.redactOperation_eq", "Anonymongo.Src.redactOperation_seq", "Anonymongo.Src.seqOp_map", "Anonymongo.Src.seqVal_eq"]
 SRC_THEOREMS = {
-    "C01": _LEAF + ["Anonymongo.Src.isInSearchStage_eq"] + _WALK + _DISP,
-    "C04": _DISP,
+    "C01": _LEAF + ["Anonymongo.Src.isInSearchStage_eq"] + _WALK + _DISP + _CMD,
+    "C04": _DISP + _CMD,
     "C02": _LEAF + _WALK,
     "C03": ["Anonymongo.Src.redactScalarValue_eq"] + _WALK,
     "C05": _LEAF + _WALK,
-    "C07": _LEAF + _PATH + _HELP + _WALK + _DISP,
+    "C07": _LEAF + _PATH + _HELP + _WALK + _DISP + _CMD + ["Anonymongo.Src.redactNamespace_eq"],
     "C10": ["Anonymongo.Src.redactString_eq", "Anonymongo.Src.redactScalarValue_eq"] + _WALK,
-    "C12": ["Anonymongo.Src.getOp_eq", "Anonymongo.Src.traverseMapPath_eq", "Anonymongo.Src.HashName_eq", "Anonymongo.Src.redactNamespaceFields_eq", "Anonymongo.Src.Gen_searchedFields"],
+    "C12": ["Anonymongo.Src.getOp_eq", "Anonymongo.Src.traverseMapPath_eq", "Anonymongo.Src.HashName_eq", "Anonymongo.Src.redactNamespaceFields_eq", "Anonymongo.Src.Gen_searchedFields",
+            "Anonymongo.Src.redactNamespace_eq", "Anonymongo.Src.blkLoop", "Anonymongo.Src.blkInner"],
     "C13": ["Anonymongo.Src.HashName_eq", "Anonymongo.Src.trimLeftCutset_dollar"],
     "C14": _LEAF + ["Anonymongo.Src.isRedactableFieldPatternInArray_eq", "Anonymongo.Src.augmentOp_eq"] + _WALK,
     "C15": ["Anonymongo.Src.isFieldNameValue_eq", "Anonymongo.Src.HashName_eq"] + _WALK,
@@ -283,6 +287,9 @@ SRC_NOTE = ("; SOURCE-LEVEL (tools/gotr, Generated/Src.lean, Props/Src/*): the l
             "table and flag setting; the theorems above about those model functions are therefore theorems about the current source text; "
             "the QUERY WALKER and the ARRAY WALKER too (Props/Src/Walk: redactQueryValues_eq, redactArrayValuesWithKey_eq - the translated mutual recursion "
             "of redactQueryValues / redactArrayValuesWithKey returns the model's Q / A; HashName_eq: the translated HashName is the model's hashName (SHA-256, Split / Join and %x being the model's); "
+            "redactCommand_eq / redactNamespace_eq (Props/Src/Command): the translated redactCommand (the operation, the operation wrapped by explain, the operations of bulkWrite) "
+            "and redactNamespace (the searched fields, those of the explained command, those of the nsInfo elements) - Go updates these nested documents through pointers; the "
+            "translator writes each update back into the enclosing values - return the model's key-wise rebuild for every command document without duplicate keys at any level; "
             "redactOperation_eq (Props/Src/Dispatch): the translated redactOperation - one Lean function per top-level statement of the Go function, chained - "
             "returns, for every operation document without duplicate keys, the model's redactOperation: which keys open a zone (query, filter, sort, update, updates, deletes, "
             "arrayFilters, q, u, updateMods, document / documents under insert, pipeline), with which walker, every other key untouched; the stage walker is a parameter there; "
